@@ -11,6 +11,17 @@ from . import common as C
 
 ID = "C06"
 FID = "C06-phrase-conflicts"
+FID2 = "C06-out-of-range-falls-through"
+MARGIN = (12, 9988)       # reference years between which no listed direction-less expression can leave 0001..9999
+
+
+def _directionless(canon):
+    """canonical keys such as '1 year' or '2 hour' name an amount without 'ago' / 'in'"""
+    return not re.search(r"\bago\b|^in\b", canon)
+
+
+def _open(fid):
+    return any(k["id"] == fid and k.get("status", "open") == "open" for k in runner.load_known())
 ENCODED = ["dateparser.date.DateDataParser.get_date_data (called twice per path: the language's phrase and the English "
            "canonical expression, same symbolic reference instant)", "dateparser.languages.locale.Locale.translate/"
            "_get_relative_translations/_clear_future_words/_join/_simplify", "dateparser.languages.dictionary.Dictionary."
@@ -89,6 +100,9 @@ def _eq(a, b):
 def h_fixed(lang, locale, phrase, canon):
     def fn():
         b = C.sym_base("b")
+        if _directionless(canon) and _open(FID2):
+            # region of the open finding (re-confirmed natively from its listed example on every run)
+            core.assume(mkbool(z3.And(_zi(b.year) >= MARGIN[0], _zi(b.year) <= MARGIN[1])))
         st = {"RELATIVE_BASE": b}
         x = C.api(phrase, languages=None if locale else [lang], locales=[locale] if locale else None, settings=st)
         y = C.api(canon, languages=["en"], settings=st)
@@ -100,6 +114,8 @@ def h_fixed(lang, locale, phrase, canon):
 def h_counted(lang, locale, pre, suf, canon, width):
     def fn():
         b = C.sym_base("b")
+        if _directionless(canon) and _open(FID2):
+            core.assume(mkbool(z3.And(_zi(b.year) >= 10 ** width * 10 + 2, _zi(b.year) <= 9998 - 10 ** width * 10)))
         n = C.field("n", 0, 10 ** width - 1)
         st = {"RELATIVE_BASE": b}
         s = tmpl([pre, ("n", width), suf], {"n": n})
@@ -251,6 +267,9 @@ def native_check(spec):
 def classify_known(spec, verdict, known):
     a = spec["args"]
     code = a["locale"] or a["lang"]
+    if FID2 in {k["id"] for k in known} and _directionless(a["canon"]) and spec.get("base") \
+            and not (MARGIN[0] <= spec["base"][0] <= MARGIN[1]):
+        return FID2
     for k in known:
         if k["id"] != FID:
             continue
